@@ -5,6 +5,7 @@ import (
 	"encoding/json"
 	"fmt"
 	"math/rand"
+	"mime/multipart"
 	"net/http"
 	"net/http/httptest"
 	"net/url"
@@ -37,6 +38,10 @@ type hReq struct {
 	Raw    *string           `json:"raw,omitempty"`  // raw body bytes
 	Params map[string]string `json:"params,omitempty"`
 	Ranks  []int             `json:"completion_ranks,omitempty"` // per operation: delay rank
+	// Multipart: the body travels as the "operations" field of a multipart/form-data request whose
+	// map names one uploaded file with an empty list of paths: nothing is injected, so the request
+	// must be answered exactly as the plain JSON POST of the same body
+	Multipart bool `json:"multipart,omitempty"`
 }
 
 type hCase struct {
@@ -101,6 +106,19 @@ func doHTTP(fed *Fed, ex *countingExec, rq *hReq, names []string) hObs {
 	req := httptest.NewRequest(rq.Method, target, bytes.NewReader(body))
 	if rq.CType != "<none>" {
 		req.Header.Set("Content-Type", rq.CType)
+	}
+	if rq.Multipart {
+		var mp bytes.Buffer
+		w := multipart.NewWriter(&mp)
+		fw, _ := w.CreateFormField("operations")
+		_, _ = fw.Write(body)
+		fw, _ = w.CreateFormField("map")
+		_, _ = fw.Write([]byte(`{"0": []}`))
+		fw, _ = w.CreateFormFile("0", "f0.txt")
+		_, _ = fw.Write([]byte("content"))
+		_ = w.Close()
+		req = httptest.NewRequest(rq.Method, target, &mp)
+		req.Header.Set("Content-Type", w.FormDataContentType())
 	}
 	rec := httptest.NewRecorder()
 	obs := hObs{}
@@ -450,10 +468,14 @@ func runHTTP(cfg *runCfg, prop string) error {
 				op, _, _ := genOp(r, fed, 0)
 				rq.Body = map[string]interface{}(op)
 			}
+			if prop == "C15" && rq.Method == http.MethodPost && (kind == "post-single" || kind == "post-batch" || kind == "post-malformed") && r.Intn(6) == 0 {
+				rq.Multipart = true
+				kind += "-multipart"
+			}
 			if prop == "C16" {
 				// a batched POST in the sense of the property: an accepted content type
 				rq.CType = []string{"application/json", "application/json; charset=utf-8", "text/plain", "", "<none>"}[r.Intn(5)]
-			} else if rq.Method == http.MethodPost && r.Intn(4) == 0 {
+			} else if rq.Method == http.MethodPost && !rq.Multipart && r.Intn(4) == 0 {
 				rq.CType = []string{"application/json; charset=utf-8", "text/plain", "", "<none>", "application/graphql", "text/html", " application/json", "application/json;charset=utf-8", "APPLICATION/JSON"}[r.Intn(9)]
 			}
 			cs.Req = rq
